@@ -6,7 +6,7 @@ import cmpfam as cf
 
 def mc_cfgs(ck, tier, dsets=None):
     """Model-check the comparison pipeline and return the configurations TLC emitted."""
-    dsets = dsets or os.environ.get("DX_DSETS") or ("closed" if tier == "quick" else "all")
+    dsets = dsets or os.environ.get("DX_DSETS") or ("quick" if tier == "quick" else "all")
     st, outp = dx.tlc_run("MC_Cmp", "MC_Cmp_%s.cfg" % dsets, "mc_cmp_" + dsets, timeout=7200)
     text = open(outp).read()
     if not st["ok"]:
@@ -31,6 +31,8 @@ def mc_cfgs(ck, tier, dsets=None):
 
 def sig_cfg(c):
     """compact, stable signature of a field configuration"""
+    if isinstance(c, str):
+        return c
     out = []
     for a in cf.ATTRS:
         o = c[a]
@@ -95,6 +97,12 @@ def c05(tier):
                             reqs.append({"k": "expand", "id": len(reqs), "entry": entry,
                                          "attr": ", ".join(D) if entry == "attr" else "", "item": item})
                             meta.append((P, D, entry, "misplaced_%s_%s" % (target, kind), P["variants"][-1]["fields"][0]["cmp"]))
+    for (P, D, entry, tag, c) in random_items(random.Random(dx.seed() + 3), 20000 if tier == "quick" else 200000):
+        for ent in ("attr", "derive"):
+            src = cf.item_src(P, D, "T", "distinct", ent)
+            item = src[src.index("]") + 1:] if ent == "attr" else src
+            reqs.append({"k": "expand", "id": len(reqs), "entry": ent, "attr": ", ".join(D) if ent == "attr" else "", "item": item})
+            meta.append((P, D, ent, "random", c))
     dx.log("C05: %d expansions" % len(reqs))
     resps = dx.expand(reqs)
     events = []
@@ -106,7 +114,7 @@ def c05(tier):
     for i in bad:
         P, D, entry, tag, c = meta[i]
         wrong = sorted(t for t in D if events[i]["classes"][t] != "impl") if False else None
-        sig = {"kind": "acceptance", "cfg": sig_cfg(c), "D": "+".join(D), "classes": events[i]["classes"], "shape": tag.split("_")[0] if tag.startswith("misplaced") else "field"}
+        sig = {"kind": "acceptance", "cfg": sig_cfg(c), "D": "+".join(D), "classes": events[i]["classes"], "shape": tag.split("_")[0] if tag.startswith("misplaced") else ("random" if tag == "random" else "field")}
         ck.violation(sig, {"what": "per-trait accept/reject of the real expander is not what DxCmp prescribes",
                            "request": reqs[i], "observed": events[i], "shape": tag,
                            "replay": "echo '<request>' | harness/target/release/dx-expand"})
@@ -278,6 +286,34 @@ def items_from_cfgs(cfgs, tier, traits_filter=None, entries=("attr", "derive"), 
     return items
 
 
+QUICK_DSETS = [["PartialEq"], ["Eq", "PartialEq"], ["PartialOrd", "PartialEq"], ["PartialOrd", "Eq", "PartialEq"], ["Ord", "PartialOrd", "Eq", "PartialEq"],
+               ["PartialEq", "Hash"], ["Eq", "PartialEq", "Hash"], ["Ord", "PartialOrd", "Eq", "PartialEq", "Hash"], ["PartialOrd", "PartialEq", "Hash"],
+               ["Ord"], ["PartialOrd"], ["Eq"], ["Hash"]]
+
+
+def random_items(rnd, n, traits_filter=None):
+    """seeded multi-field items: several attributed fields per struct / variant, explicit discriminants, random derived sets"""
+    items = []
+    while len(items) < n:
+        P = cf.random_item(rnd)
+        D = list(rnd.choice(QUICK_DSETS))
+        if traits_filter and not traits_filter(D):
+            continue
+        rnd.shuffle(D)
+        # all helper attributes present must belong to derive_ex for D, otherwise only #[derive(Ex)] can compile the program
+        present = set(a for v in P["variants"] for f in v["fields"] for a in cf.ATTRS if f["cmp"][a] != cf.NOOPT)
+        rec = set(a for a in cf.ATTRS if any(RELEVANT(a, t) for t in D))
+        entry = rnd.choice(["attr", "derive"]) if present <= rec else "derive"
+        items.append((P, D, entry, "random", cf.cfg_summary(P)))
+    return items
+
+
+def RELEVANT(a, t):
+    # the documentation's table (DxBase.Relevant); used ONLY to decide through which entry point a program can be compiled
+    return (a == "ord") or (a == "partial_ord" and t in ("PartialOrd", "PartialEq")) or (a == "eq" and t in ("Eq", "PartialEq", "Hash")) \
+        or (a == "partial_eq" and t in ("Eq", "PartialEq")) or (a == "hash" and t == "Hash")
+
+
 def report_run_bad(ck, pid, bad, events, meta, what):
     for i in bad:
         m = meta[i]
@@ -298,6 +334,7 @@ def c01(tier):
     cfgs, st = mc_cfgs(ck, tier)
     cmp_only = lambda D: "Hash" not in D
     items = items_from_cfgs(cfgs, tier, cmp_only, pv=True, rotate=(tier == "quick"))
+    items += random_items(random.Random(dx.seed()), 700 if tier == "quick" else 8000, cmp_only)
     events, meta, stats = observe_runtime(ck, items, "distinct", False, "c01")
     n, bad, jst = dx.tlc_judge("Trace_Cmp", "Trace_Cmp.cfg", events, "c01", chunk=max(300, -(-len(events) // 12)))
     ck.add_judge(n, jst)
@@ -319,6 +356,7 @@ def c06(tier):
     ck = dx.Check("C06", tier)
     cfgs, st = mc_cfgs(ck, tier)
     items = items_from_cfgs(cfgs, tier, lambda D: "Hash" in D, rotate=(tier == "quick"))
+    items += random_items(random.Random(dx.seed() + 1), 500 if tier == "quick" else 6000, lambda D: "Hash" in D)
     events, meta, stats = observe_runtime(ck, items, "distinct", False, "c06")
     n, bad, jst = dx.tlc_judge("Trace_Cmp", "Trace_Cmp.cfg", events, "c06", chunk=max(300, -(-len(events) // 12)))
     ck.add_judge(n, jst)
@@ -352,6 +390,7 @@ def c02(tier):
     if ck.notes["model"]["multi_trait_accepting"] == 0:
         raise dx.ToolError("vacuous coherence run")
     items = items_from_cfgs(cfgs, tier, rotate=(tier == "quick"))
+    items += random_items(random.Random(dx.seed() + 2), 700 if tier == "quick" else 8000)
     events, meta, stats = observe_runtime(ck, items, "coherent", True, "c02")
     n, bad, jst = dx.tlc_judge("Trace_Cmp", "Trace_Cmp.cfg", events, "c02", chunk=max(300, -(-len(events) // 12)))
     ck.add_judge(n, jst)
@@ -387,6 +426,10 @@ def c17(tier):
                 Ps = [("struct_tuple_only", cf.mkP("struct", [{"shape": "tuple", "fields": [sub()]}])),
                       ("enum_named_last", cf.mkP("enum", [{"shape": "unit", "fields": []},
                                                            {"shape": "named", "fields": [cf.field(), sub()]}]))]
+                # a trailing PartialEq-only field that is always compared: the program must be refused whatever the subject field does
+                if ty == "eq" and kty == "eq":
+                    Ps.append(("enum_tuple_ne_last", cf.mkP("enum", [{"shape": "tuple", "fields": [sub(), cf.field(ty="noneq")]},
+                                                                     {"shape": "unit", "fields": []}])))
                 if tier == "thorough":
                     Ps.append(("struct_named_first", cf.mkP("struct", [{"shape": "named", "fields": [sub(), cf.field(ty="eq")]}])))
                 present = [a for a in cf.ATTRS if c["c"][a] != cf.NOOPT]
@@ -433,11 +476,20 @@ def c17(tier):
         m, ds, src = meta[i]
         P, D, entry, stag, c = items[m]
         f = [f for v in P["variants"] for f in v["fields"] if f["dom"] == 2 and f["cmp"] == c][0] if False else None
-        sub = [f for v in P["variants"] for f in v["fields"]][-1] if stag != "struct_named_first" else P["variants"][0]["fields"][0]
+        sub = [f for v in P["variants"] for f in v["fields"]][-1] if stag not in ("struct_named_first", "enum_tuple_ne_last") else P["variants"][0]["fields"][0]
         sig = {"kind": "eq_refusal", "cfg": sig_cfg(c), "D": "+".join(D), "ty": sub["ty"], "kty": sub["kty"], "rustc_ok": events[i]["rustc_ok"], "shape": stag}
         ck.violation(sig, {"what": "rustc accept/reject of derive_ex(Eq) differs from EqCompiles", "source": src, "diagnostics": ds, "observed": {k: v for k, v in events[i].items() if k != "P"}})
+    gen_events, gen_meta = c17_generic(tier)
+    base = len(events)
+    n2, bad2, jst2 = dx.tlc_judge("Trace_Cmp", "Trace_Cmp.cfg", gen_events, "c17g")
+    ck.add_judge(n2, jst2)
+    for i in bad2:
+        ck.violation({"kind": "eq_refusal_generic", "case": gen_meta[i]["tag"], "rustc_ok": gen_events[i]["rustc_ok"]},
+                     {"what": "generic item: rustc accept/reject of derive_ex(Eq) differs from the rule (every compared component must be Eq)", "source": gen_meta[i]["src"],
+                      "diagnostics": gen_meta[i]["diags"], "observed": gen_events[i]})
     acc = sum(1 for e in events if e["rustc_ok"])
-    ck.notes["runtime"] = {"items": len(items), "events": len(events), "programs": len(reps), "rustc_accepts": acc, "rustc_rejects": len(events) - acc}
+    ck.notes["runtime"] = {"items": len(items), "events": len(events), "programs": len(reps), "rustc_accepts": acc, "rustc_rejects": len(events) - acc,
+                           "generic_programs": len(gen_events)}
     if events and (acc == 0 or acc == len(events)):
         raise dx.ToolError("vacuous C17 run: %s" % ck.notes["runtime"])
     for i in (0, len(events) // 2, len(events) - 1):
@@ -462,3 +514,48 @@ def hygiene_sample(tier, hook, rnd):
     n, bad, jst = dx.tlc_judge("Trace_Cmp", "Trace_Cmp.cfg", events, "c13cmp", chunk=max(300, -(-len(events) // 8)))
     ck.add_judge(n, jst)
     report_run_bad(ck, "C13", bad, events, meta, "comparison impls behave differently (or stop compiling) under renaming / shadowing")
+
+
+def c17_generic(tier):
+    """generic items: the Eq impl must be refused unless its bounds make every compared component Eq.
+    Each case is (tag, expected by the rule, program).  The rule is the specification's EqCompilesField with
+    `ty` read as "the bounds in force imply FieldTy: Eq"; here it is tabulated per case because the bound texts are fixed."""
+    cases = []
+    hdr = "#![allow(dead_code)]\n"
+    bounds = [("default", "", True), ("type_this_eq", "Eq(bound(T: ::core::cmp::Eq))", True), ("type_this_partialeq", "Eq(bound(T: ::core::cmp::PartialEq))", False),
+              ("type_this_empty", "Eq(bound())", False), ("type_this_dd", "Eq(bound(..))", True)]
+    for tag, b, ok in bounds:
+        for kind in ("struct", "enum"):
+            item = "pub struct X<T>(pub T);" if kind == "struct" else "pub enum X<T> { A(T), B }"
+            d = ("%s, PartialEq" % b) if b else "Eq, PartialEq"
+            cases.append(("%s_%s" % (tag, kind), ok, hdr + "#[::derive_ex::derive_ex(%s)] %s\n" % (d, item)))
+    # field / variant level
+    for lvl_tag, wrap in (("field", lambda a: "pub struct X<T>(%s pub T, pub u8);" % a), ("field_enum", lambda a: "pub enum X<T> { A(u8, %s T), B }" % a),
+                          ("variant", lambda a: "pub enum X<T> { %s A(T), B }" % a)):
+        for btag, b, ok in (("eq", "bound(T: ::core::cmp::Eq)", True), ("partialeq", "bound(T: ::core::cmp::PartialEq)", False), ("empty", "bound()", False),
+                            ("dd", "bound(..)", True), ("partialeq_dd", "bound(T: ::core::cmp::PartialEq, ..)", True)):
+            for form in ("#[derive_ex(Eq(%s))]", "#[derive_ex(Eq, %s)]", "#[eq(%s)]"):
+                a = form % b
+                cases.append(("%s_%s_%s" % (lvl_tag, btag, form.split("(")[0].strip("#[")), ok,
+                              hdr + "#[::derive_ex::derive_ex(Eq, PartialEq)] %s\n" % wrap(a)))
+    # ignored / by-compared generic fields need nothing
+    cases.append(("ignored_generic", True, hdr + "#[::derive_ex::derive_ex(Eq, PartialEq)] pub struct X<T>(#[eq(ignore, bound())] pub T, pub u8);\n"))
+    cases.append(("by_generic", True, hdr + "#[::derive_ex::derive_ex(Eq, PartialEq)] pub struct X<T>(#[eq(by = |_: &T, _: &T| true, bound())] pub T, pub u8);\n"))
+    wd = os.path.join(dx.WORK, "c17g-%d" % os.getpid())
+
+    def comp(ix):
+        i, (tag, ok, src) = ix
+        r, diags = dx.check_only("g%d" % i, src, wd)
+        errs = [d for d in diags if d.get("level") == "error"]
+        eqerr = any((d.get("code") or {}).get("code") == "E0277" and "Eq" in json.dumps(d) for d in errs)
+        return r, eqerr, dx.diag_summary(diags)[:3]
+    res = dx.pmap(comp, list(enumerate(cases)))
+    import shutil
+    shutil.rmtree(wd, ignore_errors=True)
+    events, meta = [], []
+    for (tag, ok, src), (r, eqerr, ds) in zip(cases, res):
+        # descriptor: one field whose type is Eq exactly when the bounds in force imply it
+        P = cf.mkP("struct", [{"shape": "tuple", "fields": [cf.field(ty="eq" if ok else "noneq", dom=1)]}])
+        events.append({"ev": "eqc", "P": P, "D": ["Eq", "PartialEq"], "rustc_ok": r, "eq_bound_error": eqerr})
+        meta.append({"tag": tag, "src": src, "diags": ds})
+    return events, meta
